@@ -15,7 +15,7 @@ RULE = ("batches of 1..12 designs evaluated with 2..6 worker threads under a con
         "sync_individual entry/exit and before/after every SQL execute/commit, grant order chosen by seeded policies (uniform, "
         "round-robin, LIFO, starve-one, PCT-style priorities), SQLite busy timeout shortened to 50 ms so that lock contention and "
         "the OperationalError retry path occur; plus runs under sys.monitoring LINE-event yield injection inside artap code and "
-        "short NSGA-II / eps-MOEA / OMOPSO / SMPSO / PSOGA runs with max_processes>1 compared with the serial run of the same seed. Oracle: serial evaluation of the same vectors on a fresh problem; one objective "
+        "short NSGA-II / eps-MOEA / OMOPSO / SMPSO / PSOGA runs with max_processes>1 compared with the serial run of the same seed; judged batches also on an algorithm object that had already evaluated a batch under another store (store attached late / replaced). Oracle: serial evaluation of the same vectors on a fresh problem; one objective "
         "call per design; one row per design equal to the final object. non-trivial = schedule in which >=2 designs were inside the "
         "objective/store at the same time; distinct = distinct grant-order signature")
 ASSUMPTIONS = ["interleavings are explored at gate and statement granularity; nothing inside one statement or inside C code holding "
@@ -487,6 +487,8 @@ def requirements(ctx):
     ctx.require("schedules_with_overlap", 20)
     ctx.require("design_equivalence_checks", 200)
     ctx.require("row_checks", 100)
+    ctx.require("judged_batches_after_store_attached_late", 3)
+    ctx.require("judged_batches_after_store_replaced", 3)
     ctx.require("line_yields", 100)
     ctx.require("nsga2_run_pairs", 4)
     if ctx.extra.get("max_overlap_in_objective", 0) < 2:
